@@ -109,6 +109,17 @@ ExtractLaws == (Family = "extract" /\ stage = 2) =>
     \* a root other than the start is reached but never traversed through
     /\ \A n \in ReachAll(G, s) : n = s \/ \E t \in Triples(G) : t[3] = n /\ t[1] \in ReachAll(G, s) /\ Expandable(G, s, t[1])
 
+\* the set-level part of the same laws (no functional references): cheap enough for the two-type universe
+ExtractLawsLight == (Family = "extract" /\ stage = 2) =>
+  \A s \in IdsU :
+    /\ Reach(G, s, 1) = {s}
+    /\ \A k \in 1..MaxDepth : Reach(G, s, k) \subseteq Reach(G, s, k + 1)
+    /\ Reach(G, s, MaxDepth + 1) = ReachAll(G, s)
+    /\ GraphIds(G, s) = ReachAll(G, s) \ (Roots(G) \ {s})
+    /\ SiblingIds(G, s) = {s} \cup Succ(G, s)
+    /\ \A n \in ReachAll(G, s) : n = s \/ \E t \in Triples(G) : t[3] = n /\ t[1] \in ReachAll(G, s) /\ Expandable(G, s, t[1])
+    /\ \A t \in Followed(G, s, GraphIds(G, s)) : t \in Induced(G, GraphIds(G, s))
+
 (* --------------------------------- C16 ---------------------------------- *)
 Perms3(s) == IF Len(s) = 3 THEN {<<s[1], s[2], s[3]>>, <<s[1], s[3], s[2]>>, <<s[2], s[1], s[3]>>,
                                  <<s[2], s[3], s[1]>>, <<s[3], s[1], s[2]>>, <<s[3], s[2], s[1]>>}
